@@ -99,6 +99,18 @@ impl WriteAheadLog {
     }
 
     fn read_exact(file: &mut File, size: u64) -> Result<Vec<u8>, DbError> {
+        let remaining = file
+            .metadata()?
+            .len()
+            .saturating_sub(file.stream_position()?);
+
+        if remaining < size {
+            return Err(DbError::storage(
+                crate::DbErrorType::OutOfBounds,
+                format!("Write ahead log record size ({size}) exceeds remaining log ({remaining})"),
+            ));
+        }
+
         let mut buffer = vec![0_u8; size as usize];
         file.read_exact(&mut buffer)?;
 
